@@ -431,6 +431,69 @@ def _boundscheck_main(seed, ncalls, out):
         json.dump({"calls": calls, "index_errors": index_errors, "other_errors": other}, fh)
 
 
+def fam_fresh_process_sequences(ctx, rng):
+    """A user who tries one bandwidth after another in a NEW interpreter: the first calls an operator ever receives in a
+    process, in ascending, descending or mixed order of bandwidth (and of grid length).  In the long-lived shard process
+    whatever a first call leaves behind in the module is set once and for all by the largest request seen so far; only a
+    fresh process shows the early part of such a history.  A handful per run (index-based), each call judged by the model."""
+    ctx.count("fresh_process_sequences")
+    scratch = tempfile.mkdtemp(prefix="hvmon-c02seq-", dir=os.environ.get("HVMON_SCRATCH"))
+    out = os.path.join(scratch, "out.json")
+    sub_seed = int(rng.integers(0, 2 ** 31))
+    ctx.describe(kind="fresh-process call sequences", sub_seed=sub_seed)
+    try:
+        p = subprocess.run([sys.executable, "-W", "ignore", "-m", "hvmon.monitors.C02", "--sequences", str(sub_seed), out],
+                           capture_output=True, text=True, timeout=600)
+        if p.returncode != 0 or not os.path.exists(out):
+            ctx.violation("exception:fresh-process-sequences", "the child process died", stderr=p.stderr[-2000:])
+            return
+        with open(out) as fh:
+            r = json.load(fh)
+    finally:
+        if os.path.exists(out):
+            os.remove(out)
+        os.rmdir(scratch)
+    ctx.count("fresh_process_calls", r["calls"])
+    ctx.nontrivial(["fresh-process", r["orders"]])
+    ctx.check(not r["bad"], "model-equal", f"a call in a fresh process differs from the normalised kernel average after "
+              f"{len(r['bad'])} of {r['calls']} calls of a bandwidth sequence", mechanism="call-history-in-a-fresh-process",
+              first=r["bad"][:4], sub_seed=sub_seed)
+
+
+def _sequences_main(seed, out):
+    """Child process: no warm-up, one sequence of calls per operator, every call against the model."""
+    setup(None)
+    rng = np.random.default_rng([seed, NUM, 4242])
+    bad, calls, orders = [], 0, []
+    names = list(M.OPERATORS)
+    names.remove("savitzky_and_golay")
+    for name in ["savitzky_and_golay"] + [names[int(i)] for i in rng.permutation(len(names))[:3]]:
+        k = int(rng.integers(3, 7))
+        order = str(rng.choice(["ascending", "ascending", "descending", "mixed"]))
+        if name == "savitzky_and_golay":
+            bs = [float(b) for b in rng.choice(np.arange(3, 33, 2), size=k, replace=False)]
+        else:
+            n0 = int(rng.choice([64, 256, 1024]))
+            bs = [gen_bandwidth(rng, name, np.fft.rfftfreq(n0, 0.01)) for _ in range(k)]
+        bs = sorted(bs) if order == "ascending" else sorted(bs, reverse=True) if order == "descending" else bs
+        orders.append([name, order, k])
+        for j, b in enumerate(bs):
+            n = int(rng.choice([64, 100, 256, 1024, 2000]))
+            f = np.fft.rfftfreq(n, 0.01)
+            s = gen_spectrum(rng, str(rng.choice(["constant", "random", "cubic"])), int(rng.integers(1, 4)), f)
+            fcs = np.ascontiguousarray(gen_fcs(rng, str(rng.choice(["log", "on-grid", "off-grid"])), f))
+            got = call(name, f, s, fcs, b)
+            calls += 1
+            res = M.smooth(name, f, s, fcs, b)
+            mm = M.mismatches(got, res)
+            if mm:
+                r, c = mm[0]
+                bad.append({"name": name, "order": order, "call_index": j, "bandwidths": bs, "n": n, "fc": float(fcs[c]),
+                            "got": float(got[r, c]), "want": float(res.base[r, c])})
+    with open(out, "w") as fh:
+        json.dump({"calls": calls, "bad": bad, "orders": orders}, fh)
+
+
 _COMPILED_DTYPE_PAIRS = set()
 
 
@@ -474,6 +537,18 @@ FAMILIES = [("non-float64-spectra", fam_dtypes), ("buffers-refilled-in-place", f
             ("sg-cubic", fam_sg_cubic), ("model-small-grid-2", fam_model_small),
             ("boundscheck", fam_boundscheck), ("exactly-representable-grid-edges", fam_dyadic_edges)]
 
+
+def _or_fresh_process(fn):
+    """Whatever the family, the cases with index 7 mod 499 (six per quick run) are a fresh-process call sequence."""
+    def run(ctx, rng):
+        return fam_fresh_process_sequences(ctx, rng) if ctx.every(499, 7) else fn(ctx, rng)
+    return run
+
+
+FAMILIES = [(n, _or_fresh_process(f)) for n, f in FAMILIES]
+
 if __name__ == "__main__":
     if len(sys.argv) > 1 and sys.argv[1] == "--boundscheck":
         _boundscheck_main(int(sys.argv[2]), int(sys.argv[3]), sys.argv[4])
+    if len(sys.argv) > 1 and sys.argv[1] == "--sequences":
+        _sequences_main(int(sys.argv[2]), sys.argv[3])
